@@ -127,6 +127,13 @@ OptionComposes ==
 
 IsNoneV(v)  == Canon(v) = NULL
 ToOptV(v)   == IF Canon(v) = NULL THEN <<>> ELSE <<v>>
+\* into_cast::<T>() / T::inner_cast(x) re-wrap a value in T's KIND of container, element type kept: an
+\* Option kind absorbs the null, a bare kind hands the value through (<<>> = None)
+IntoKind(v, optKind) == IF optKind THEN ToOptV(v) ELSE <<Canon(v)>>
+IntoKindCoherent ==
+    \A v \in Universe : /\ (IntoKind(v, TRUE) = <<>>) <=> IsNoneV(v)
+                         /\ IntoKind(v, FALSE) = <<Canon(v)>>
+                         /\ ~IsNoneV(v) => IntoKind(v, TRUE) = IntoKind(v, FALSE)
 PredicatesCoherent ==
     \A v \in Universe :
         /\ IsNoneV(v) <=> (ToOptV(v) = <<>>)
